@@ -28,6 +28,8 @@ import (
 	"encoding/hex"
 	"fmt"
 	"io"
+	"net"
+	"os"
 	"reflect"
 	"sort"
 	"strconv"
@@ -40,6 +42,7 @@ import (
 	"github.com/Tnze/go-mc/nbt"
 	"github.com/Tnze/go-mc/nbt/dynbt"
 	mcnet "github.com/Tnze/go-mc/net"
+	"github.com/Tnze/go-mc/net/CFB8"
 	pk "github.com/Tnze/go-mc/net/packet"
 )
 
@@ -225,6 +228,55 @@ var c09Decoders = map[string]c09Dec{
 	// chat: the NBT form of a text component, the chat-type header (C17 stage 2)
 	"chat.nbt":  c09RunChatNBT,
 	"chat.type": c09RunChatType,
+	// net.Conn: plain frames, SetCipher, encrypted frames on one socket (models: C07 unpack + C10 connSetCipher)
+	"conn.cipher": c09RunConnCipher,
+}
+
+// c09OneListener hands out one prepared connection (mcnet.Listener.Accept wraps it like an accepted socket)
+type c09OneListener struct{ conn net.Conn }
+
+func (l c09OneListener) Accept() (net.Conn, error) { return l.conn, nil }
+func (l c09OneListener) Close() error              { return nil }
+func (l c09OneListener) Addr() net.Addr            { return c10Addr{} }
+
+// c09RunConnCipher: the login flow on the receiving side. The socket delivers p["pre"] plain frames followed by
+// p["post"] frames encrypted with CFB8 (cipher, key, iv): ReadPacket x pre through a Conn made by WrapConn (via=wrap)
+// or Listener.Accept (via=accept), then SetCipher, then ReadPacket x post.
+func c09RunConnCipher(r io.Reader, p map[string]string) string {
+	f := &fakeConn{br: bytes.NewReader(nil)}
+	f.r = r
+	var cn *mcnet.Conn
+	if p["via"] == "accept" {
+		c, _ := mcnet.Listener{Listener: c09OneListener{f}}.Accept()
+		cn = &c
+	} else {
+		cn = mcnet.WrapConn(f)
+	}
+	if t := c09Int(p["t"]); t != -1 {
+		cn.SetThreshold(t)
+	}
+	var got []string
+	read := func(n int) bool {
+		for i := 0; i < n; i++ {
+			var q pk.Packet
+			if err := cn.ReadPacket(&q); err != nil {
+				return false
+			}
+			got = append(got, fmt.Sprintf("%08x:%s", uint32(q.ID), dig(q.Data)))
+		}
+		return true
+	}
+	if !read(c09Int(p["pre"])) {
+		return "err"
+	}
+	key, iv := unhx(p["key"]), unhx(p["iv"])
+	be, _ := c10Block(p["cipher"], key)
+	bd, _ := c10Block(p["cipher"], key)
+	cn.SetCipher(CFB8.NewCFB8Encrypt(be, iv), CFB8.NewCFB8Decrypt(bd, iv))
+	if !read(c09Int(p["post"])) {
+		return "err"
+	}
+	return "ok pk=" + strings.Join(got, ",")
 }
 
 func c09RunVarInt(r io.Reader, _ map[string]string) string {
@@ -1375,6 +1427,8 @@ var c09Sources = []func(c *Ctx){
 	genC09Chat,
 	genC09Large,
 	genC09LargeRead,
+	genC09NbtHuge,
+	genC09ConnCipher,
 }
 
 // payload sizes around the places where an implementation may switch to another code path (pooled buffers, direct
@@ -1723,8 +1777,163 @@ func genC09LargeRead(c *Ctx) {
 	}
 }
 
+// ---------- NBT: announced lengths near the int32 limit ----------
+
+// array and list lengths whose byte size (x1, x4, x8) reaches or wraps 32 bits: the announced payload is never there.
+// Only destinations that do not allocate by the announced length on the unchanged tree take part: RawMessage,
+// skipped / unknown fields (rawRead streams), the StringifiedMessage walker (streams).  `any` / typed slices /
+// dynbt.Value allocate `make([]T, announced)` before reading (2 GiB and more): they get announced lengths of at
+// most 64 Ki elements only (1 Mi elements made the thorough tier's harness churn through tens of GB).
+var c09HugeLens = []uint32{0x0fffffff, 0x10000000, 0x1fffffff, 0x20000000, 0x3fffffff, 0x40000000, 0x7fffffff, 0x80000000, 0xffffffff,
+	0x20000001, 0x40000001, 0x40000002, 0x10000001, 0x20000002, 0x30000000, 0x60000000, 0x08000000, 0x7ffffff8, 0x00010000}
+
+func genC09NbtHuge(c *Ctx) {
+	be32 := func(n uint32) []byte { return []byte{byte(n >> 24), byte(n >> 16), byte(n >> 8), byte(n)} }
+	few := func() []byte { return c.randBytes([]int{0, 1, 3, 4, 8, 9}[c.R.Intn(6)]) }
+	type shape struct {
+		hdr []byte // tag-specific bytes before the length (list: element type)
+		tag byte
+	}
+	shapes := []shape{{nil, 7}, {nil, 11}, {nil, 12}, {[]byte{1}, 9}, {[]byte{3}, 9}, {[]byte{4}, 9}, {[]byte{11}, 9}, {[]byte{12}, 9}}
+	run := func(dec string, format string, doc []byte, bounds []int) {
+		if format == "file" && doc[0] != 0 {
+			doc = append([]byte{doc[0], 0, 1, 'r'}, doc[1:]...)
+			for i := range bounds {
+				bounds[i] += 3
+			}
+		}
+		params := []c09KV{{"fmt", format}}
+		if dec == "snbt" {
+			params = []c09KV{{"ff", "-"}} // (no float tags in these documents; c04Ffor would walk the announced lengths)
+		} else if strings.HasPrefix(dec, "dynbt") {
+			params = nil
+		}
+		c.c09Suite(dec, params, doc, bounds)
+	}
+	for li, L := range c09HugeLens {
+		for si, sh := range shapes {
+			// the two array kinds whose size is a product, every length, every run; the rest in rotation
+			always := sh.tag == 11 || sh.tag == 12
+			if !always && !c.Thorough() && (li+si+int(c.Seed))%4 != 0 {
+				continue
+			}
+			payload := append(append(append([]byte{}, sh.hdr...), be32(L)...), few()...)
+			format := []string{"net", "file"}[(li+si)%2]
+			// at the root
+			root := append([]byte{sh.tag}, payload...)
+			run("nbt.raw", format, root, []int{1, 1 + len(sh.hdr), 5 + len(sh.hdr)})
+			if always || c.Thorough() {
+				run("snbt", "net", root, []int{1, 1 + len(sh.hdr), 5 + len(sh.hdr)})
+			}
+			// as an unknown field "q" / as the RawMessage field "x" of a compound, followed by a known field and End
+			for fi, field := range []byte{'q', 'x'} {
+				doc := append([]byte{10, sh.tag, 0, 1, field}, payload...)
+				end := len(doc)
+				doc = append(doc, 3, 0, 1, 'a', 0, 0, 0, 7, 0)
+				bounds := []int{1, 5, 5 + len(sh.hdr), 9 + len(sh.hdr), end, len(doc) - 1}
+				dests := []string{"nbt.skip", "nbt.fix1"}
+				if !always && !c.Thorough() {
+					dests = dests[(li+fi)%2:][:1]
+				}
+				for _, d := range dests {
+					run(d, format, doc, append([]int{}, bounds...))
+				}
+				if (li+si+fi)%5 == 0 || c.Thorough() {
+					run("nbt.raw", format, doc, append([]int{}, bounds...))
+					run("nbt.disallow", format, doc, append([]int{}, bounds...))
+					run("snbt", "net", doc, append([]int{}, bounds...))
+				}
+			}
+			// destinations that allocate what is announced: at most 64 Ki elements
+			// (not the lists of arrays: the element's own length would be the random bytes that follow)
+			if L <= 0x00010000 && !(sh.tag == 9 && sh.hdr[0] >= 7) {
+				for _, d := range []string{"nbt.any", "nbt.map", "dynbt.net"} {
+					if d == "nbt.map" {
+						run(d, "net", append(append([]byte{10, sh.tag, 0, 1, 'q'}, payload...), 0), []int{1, 5})
+					} else {
+						run(d, "net", root, []int{1, 5})
+					}
+				}
+			}
+		}
+	}
+}
+
+// ---------- net.Conn: SetCipher in mid-stream ----------
+
+func genC09ConnCipher(c *Ctx) {
+	for rep := 0; rep < c.N(16, 120); rep++ {
+		cname := []string{"toy16", "aes", "toy8", "toy16"}[rep%4]
+		key, iv, _ := c10KeyIV(c, cname)
+		t := []int{-1, -1, 64}[rep%3]
+		pre, post := 1+c.R.Intn(5)/4, 1+c.R.Intn(2)
+		maxData := []int{0, 2, 6, 30}[rep%4]
+		var plain, rest []byte
+		var bounds []int
+		for i := 0; i < pre+post; i++ {
+			st, fr := realPack("pk", t, []int32{0, 0x2a, 0x7f, 0x80, 0x4000}[c.R.Intn(5)], c.randBytes(c.R.Intn(maxData+1)))
+			if st != "ok" {
+				return
+			}
+			if i < pre {
+				plain = append(plain, fr...)
+			} else {
+				rest = append(rest, fr...)
+			}
+			bounds = append(bounds, len(plain)+len(rest))
+		}
+		if rep%3 == 1 { // encrypted bytes after the last frame read: they stay in the socket
+			rest = append(rest, c.randBytes(1+c.R.Intn(3))...)
+		}
+		be, _ := c10Block(cname, key)
+		ct := make([]byte, len(rest))
+		CFB8.NewCFB8Encrypt(be, iv).XORKeyStream(ct, rest)
+		in := append(append([]byte{}, plain...), ct...)
+		params := []c09KV{{"cipher", cname}, {"key", hx(key)}, {"iv", hx(iv)}, {"t", strconv.Itoa(t)}, {"pre", strconv.Itoa(pre)},
+			{"post", strconv.Itoa(post)}, {"via", []string{"wrap", "accept"}[rep%2]}}
+		c.c09Suite("conn.cipher", params, in, bounds)
+		// every division of the stream by one cut and by two cuts (short streams), else cuts around the switch
+		cs := c09NewCase("conn.cipher", in, params)
+		n := len(in)
+		var cuts []int
+		if n <= 36 {
+			for i := 1; i < n; i++ {
+				cuts = append(cuts, i)
+			}
+		} else {
+			for d := -3; d <= 3; d++ {
+				for _, b := range bounds {
+					if b+d > 0 && b+d < n {
+						cuts = append(cuts, b+d)
+					}
+				}
+			}
+			sort.Ints(cuts)
+			var uniq []int
+			for _, v := range cuts {
+				if len(uniq) == 0 || uniq[len(uniq)-1] != v {
+					uniq = append(uniq, v)
+				}
+			}
+			cuts = uniq
+		}
+		for x, i := range cuts {
+			cs.emit(c, n, []int{i, n - i}, c09Tails[x%4])
+			for _, j := range cuts[x+1:] {
+				if j > i {
+					cs.emit(c, n, []int{i, j - i, n - j}, "eof")
+				}
+			}
+		}
+	}
+}
+
 func genC09(c *Ctx) {
-	for _, g := range c09Sources {
+	only := os.Getenv("C09_SOURCE") // debugging aid: the index of the one source to run
+	for i, g := range c09Sources {
+		if only != "" && only != strconv.Itoa(i) {
+			continue
+		}
 		g(c)
 	}
 }
